@@ -398,19 +398,25 @@ def dictSet (d : List (PyVal × String)) (k : PyVal) (v : String) : List (PyVal 
 def asciiBytes (s : String) : Option Bytes :=
   if s.toList.all (fun c => c.toNat < 128) then some (s.toList.map (fun c => UInt8.ofNat c.toNat)) else none
 
+/-- The dictionary key of one `<Enumeration value=…>` entry: a number for numeric encodings, bytes for string ones. -/
+def enumKey (enc : Encoding) (s : String) : LoadM PyVal :=
+  match enc with
+  | .num e => if e.isFloat then do pure (.flt (← readFloat s)) else do pure (.int (← readInt s))
+  | .str _ => match asciiBytes s with | some b => pure (.bytes b) | none => throw Err.unsupported
+  | .bin _ => throw Err.value
+
+/-- One `<Enumeration>` entry added to the dictionary. -/
+def enumStep (enc : Encoding) (d : List (PyVal × String)) (el : XmlNode) : LoadM (List (PyVal × String)) := do
+  let k ← enumKey enc (← el.attr! "value")
+  let lab ← el.attr! "label"
+  pure (dictSet d k lab)
+
 def loadEnumeration (ens : Option String) (x : XmlNode) (enc : Encoding) : LoadM (List (PyVal × String)) := do
   let l ← match findFirst ens [step "EnumerationList"] x with | some e => pure e | none => throw Err.value
-  let key : String → LoadM PyVal := fun s => match enc with
-    | .num e => if e.isFloat then do pure (.flt (← readFloat s)) else do pure (.int (← readInt s))
-    | .str _ => match asciiBytes s with | some b => pure (.bytes b) | none => throw Err.unsupported
-    | .bin _ => throw Err.value
   match enc with
   | .bin _ => throw Err.value
   | _ => pure ()
-  l.elems.foldlM (fun d el => do
-    let k ← key (← el.attr! "value")
-    let lab ← el.attr! "label"
-    pure (dictSet d k lab)) []
+  l.elems.foldlM (enumStep enc) []
 
 def loadParameterType (ens : Option String) (x : XmlNode) : LoadM LPType := do
   let tag := x.tag
